@@ -22,7 +22,7 @@ def inmem_event(n: Node):
         return None
     fe = n.ast.func
     if isinstance(fe, ast.Attribute) and isinstance(fe.value, ast.Name) and fe.value.id not in ("self", "q"):
-        fe = C.inline_locals(n.func, fe) or fe  # a local alias of a place (`bucket = self._queue.delayed[t]`)
+        fe = C.resolve_base(n.func, fe)  # a local alias of a place (`bucket = self._queue.delayed[t]`)
     ch = C.attr_chain(fe)
     meth = ch[-1]
     fields = [x for x in ch[:-1] if x in PLACE_OF_FIELD]
@@ -40,8 +40,12 @@ def inmem_event(n: Node):
 
 
 def same_class_policy(cls_q: str, exclude: tuple[str, ...] = ()):
+    mod = cls_q.rsplit(".", 1)[0]
+
     def policy(n: Node, cal: FuncInfo) -> bool:
-        return cal.cls is not None and cal.cls.qualname == cls_q and cal.name not in exclude
+        if cal.cls is not None:
+            return cal.cls.qualname == cls_q and cal.name not in exclude
+        return cal.module.name == mod and cal.parent is None and not cal.is_async  # small module-level helpers of the same file
     return policy
 
 
@@ -123,17 +127,28 @@ def inmem_transfer_atomic(ctx: Ctx, ops=("enqueue", "ack", "nack", "reject", "re
             evs = {inmem_event(n) for n in g.calls()} - {None}
             rem = {e[2] for e in evs if e[0] == "-" and e[1] == "held"}
             add = {e[2] for e in evs if e[0] == "+"}
+            if add != rem and len(add) == 1 and len(rem) == 1:
+                # removed inside a helper that returns the removed message, added by the caller under another name
+                a_name = next(iter(add))
+                for d_ in C.local_defs(f, a_name):
+                    if isinstance(d_, ast.Call):
+                        for cal in ctx.res.callees(f, d_, record=False):
+                            if any(isinstance(r_.value, ast.Name) and r_.value.id in rem for r_ in C.own_returns(cal)):
+                                add = set(rem)
             ctx.check(len(rem) == 1 and add == rem, rule_t, f, f"in-memory {op}: the removed message itself is re-inserted", f"{sorted(rem)}",
                       f"in-memory {op} removes {sorted(rem)} but inserts {sorted(add)}: the message re-inserted is not (only) the held message itself (payload/parameters/schedule may differ)",
                       instance=f"in-memory {op}: same message")
         if op in ("ack", "nack", "reject", "requeue"):
             tests = [t for t in g.nodes if t.kind == "test" and isinstance(t.ast, ast.Compare) and _mentions(t.ast, "id_")]
-            ok = any(unparse(t.ast) in ("msg.key.id_ == key.id_", "key.id_ == msg.key.id_") for t in tests)
+            ok = any(isinstance(t.ast.ops[0], ast.Eq) and {unparse(t.ast.left).split(".", 1)[-1], unparse(t.ast.comparators[0]).split(".", 1)[-1]} <= {"key.id_", "id_"}
+                     and {unparse(t.ast.left), unparse(t.ast.comparators[0])} & {"msg.key.id_", "message.key.id_", "held.key.id_", "candidate.key.id_", "m.key.id_"} or
+                     (isinstance(t.ast.ops[0], ast.Eq) and unparse(t.ast.left).endswith(".key.id_") != unparse(t.ast.comparators[0]).endswith(".key.id_")) for t in tests)
             ctx.check(ok, rule_t, f, f"in-memory {op}: held message selected by id", "msg.key.id_ == key.id_", f"in-memory {op} selects the held message by {[t.label for t in tests]}",
                       instance=f"in-memory {op}: selection")
         if op in ("enqueue", "requeue"):
             mk = [c for c in g.calls() if dotted(c.ast.func) == "Message"]
-            ok = len(mk) == 1 and [unparse(a) for a in mk[0].ast.args[:2]] == ["key", "payload"] and unparse(mk[0].ast.args[2]).startswith("params")
+            margs = [C.arg(mk[0].ast, i, nm) for i, nm in enumerate(("key", "payload", "parameters"))] if len(mk) == 1 else []
+            ok = len(mk) == 1 and all(a is not None for a in margs) and [unparse(a) for a in margs[:2]] == ["key", "payload"] and unparse(margs[2]).startswith("params")
             ctx.check(ok, rule_t, f, f"in-memory {op}: stores (key, payload, params) as given", "Message(key, payload, params or default)",
                       f"in-memory {op} stores {unparse(mk[0].ast) if mk else 'nothing'}", instance=f"in-memory {op}: stored triple")
 
@@ -197,7 +212,7 @@ def inmem_consume_rules(ctx: Ctx, rule_t="R-C01-TRANSFER", rule_a="R-C14-TAKE") 
     ctx.floor(rule_t, len(rets), 1, "returns of __consume_delayed")
     for r in rets:
         v = r.ast.value
-        pops = [c for c in ast.walk(v) if isinstance(c, ast.Call) and isinstance(c.func, ast.Attribute) and c.func.attr == "pop"]
+        pops = [c for x in C.expand_locals(d, v) for c in ast.walk(x) if isinstance(c, ast.Call) and isinstance(c.func, ast.Attribute) and c.func.attr == "pop"]
         ok = len(pops) == 1
         ctx.check(ok, rule_t, d, f"__consume_delayed: `{unparse(v)[:60]}` removes exactly what it returns", "one pop per returned message",
                   f"__consume_delayed returns `{unparse(v)[:80]}`, which does not remove exactly the returned message from the delayed map", node=r, instance=f"consume_delayed: {unparse(v)[:40]}")
@@ -212,15 +227,22 @@ def inmem_consume_rules(ctx: Ctx, rule_t="R-C01-TRANSFER", rule_a="R-C14-TAKE") 
             return None
         return {"*len": fn}
 
+    def pop_kind(nn):
+        fe = nn.ast.func
+        if isinstance(fe, ast.Attribute) and isinstance(fe.value, ast.Name) and fe.value.id != "self":
+            fe = C.resolve_base(d, fe)
+        ch = C.attr_chain(fe)
+        if ch[-1] != "pop" or "delayed" not in ch:
+            return None
+        return "bucket-deleted" if ch[-2] == "delayed" else "first-message-popped"
+
     for one in (True, False):
         r_ = flow.reach_under(gd, len_env(one), flow.NORMAL_KINDS)
-        got = [C.utext(d, n.ast.value) for n in gd.nodes if n.kind == "return" and n.id in r_ and not C.is_const(n.ast.value, None)]
-        whole = [g_ for g_ in got if "delayed.pop(" in g_]
-        elem = [g_ for g_ in got if "delayed[" in g_ and ".pop(0)" in g_]
-        ok = (len(got) == 1 and len(whole) == 1) if one else (len(got) == 1 and len(elem) == 1)
-        ctx.check(ok, rule_t, d, f"__consume_delayed: bucket with {'exactly one message' if one else 'several messages'}", "bucket deleted" if one else "first message popped, bucket kept",
-                  f"__consume_delayed with {'one message' if one else 'several messages'} in the earliest bucket returns {got}: "
-                  + ("the emptied bucket must be deleted" if one else "deleting the whole bucket makes the other messages due at the same instant vanish"),
+        kinds_ = sorted({pop_kind(nn) for nn in gd.calls() if nn.id in r_ and pop_kind(nn)})
+        want_k = ["bucket-deleted"] if one else ["first-message-popped"]
+        ctx.check(kinds_ == want_k, rule_t, d, f"__consume_delayed: bucket with {'exactly one message' if one else 'several messages'}", "bucket deleted" if one else "first message popped, bucket kept",
+                  f"__consume_delayed with {'one message' if one else 'several messages'} in the earliest bucket does {kinds_ or 'nothing'}: "
+                  + ("the emptied bucket must be deleted" if one else "deleting the whole bucket makes the other messages due at the same instant vanish (and popping nothing hands the same message out again)"),
                   instance=f"consume_delayed: bucket[{'1' if one else 'n'}]")
     sm = [n for n in ast.walk(d.node) if isinstance(n, ast.Call) and dotted(n.func) == "min"]
     ctx.check(len(sm) == 1 and C.utext(d, sm[0].args[0]) == "self._queue.delayed", "R-C15-INMEM", d, "__consume_delayed takes the soonest due time", "min(delayed)", "__consume_delayed does not take the earliest bucket",
